@@ -80,11 +80,36 @@ NOT_COVERED = []
 GROUPS = {}
 
 
-def key_of(cfg, cpu, case, kind):
+def deviation(case, em):
+    """shape of a mismatch (only a descriptor for known_findings matching and the log, never a verdict)"""
+    want = case["units"]
+    if not em or not want:
+        return ""
+    op = "opcode-ok" if em[0] == want[0] else "opcode-differs"
+    if len(em) != len(want):
+        return "len%d/%d,%s" % (len(em), len(want), op)
+    k = [i for i in range(len(want)) if em[i] != want[i]]
+    return ("unit%d-differs" % k[0]) if k else ""
+
+
+def key_of(cfg, cpu, case, kind, em=None):
     g = (cfg.name, cpu, case["id"], kind, case["pc"])
     GROUPS[g] = GROUPS.get(g, 0) + 1
+    a1 = case["args"][0] if case["args"] else ""
     return {"isa": cfg.name, "cpu": cpu, "form": case["id"], "kind": kind, "pc_low": case["pc"] % 256 if case["pc"] >= 0 else -1,
-            "op1_low8": case["ops"][0] % 256 if case["ops"] else -1}
+            "op1_low8": case["ops"][0] % 256 if case["ops"] else -1,
+            # operand 1 aliases a value 0..31 once everything above bit 8 is dropped
+            "op1_low9_lt32": bool(case["ops"]) and isinstance(case["ops"][0], int) and 0 <= case["ops"][0] % 512 < 32,
+            "forced": a1[:1] if a1[:1] in ("<", ">") else "", "prev": case.get("prev", ""),
+            "dev": deviation(case, em)}
+
+
+def zone_text(case):
+    a1 = case["args"][0] if case["args"] else ""
+    if a1[:1] == "<":
+        return ("forced zero-page spelling '<' on an instruction without zero-page form: rejecting it is admitted, but if "
+                "accepted the only encoding the instruction set has is the absolute one")
+    return "negative spelling of an unsigned field"
 
 
 def judge(rep, cfg, cpu, case, src, line, rc, em, errs, sig=None, timeout=False, out=""):
@@ -105,7 +130,7 @@ def judge(rep, cfg, cpu, case, src, line, rc, em, errs, sig=None, timeout=False,
         if em != case["units"]:
             rep.violation("%s %s: '%s'%s assembled to %s, the instruction set prescribes %s"
                           % (cfg.name, cpu, stmt, at, em, case["units"]), case=case, files={"a.asm": src},
-                          key=key_of(cfg, cpu, case, "wrong-units"))
+                          key=key_of(cfg, cpu, case, "wrong-units", em))
             return False
         return True
     if exp == "reject":
@@ -128,9 +153,9 @@ def judge(rep, cfg, cpu, case, src, line, rc, em, errs, sig=None, timeout=False,
                       key=key_of(cfg, cpu, case, "truncated-with-error"))
         return False
     if em and em != case["units"]:
-        rep.violation("%s %s: '%s'%s (negative spelling of an unsigned field) assembled to %s instead of the "
-                      "two's complement %s" % (cfg.name, cpu, stmt, at, em, case["units"]), case=case,
-                      files={"a.asm": src}, key=key_of(cfg, cpu, case, "wrong-units"))
+        rep.violation("%s %s: '%s'%s (%s) assembled to %s instead of %s"
+                      % (cfg.name, cpu, stmt, at, zone_text(case), em, case["units"]), case=case,
+                      files={"a.asm": src}, key=key_of(cfg, cpu, case, "wrong-units", em))
         return False
     return True
 
@@ -233,6 +258,8 @@ def replay_cpu(rep, bld, cfg, cpu, aslcpu, cases):
 
 
 PAIRS_PER_SOURCE = 400
+# rough relative TLC cost per ISA (scheduling order only)
+WEIGHT = {"PIC16C8x": 5, "MSP430": 4, "AVR": 3, "6502/65C02": 2, "Z80": 2}
 
 
 def replay_seq(rep, bld, cfg, cpu, aslcpu, pairs):
@@ -269,7 +296,7 @@ def replay_seq(rep, bld, cfg, cpu, aslcpu, pairs):
     for p, (j, where), res in zip(suspects, jobs, results):
         for i, c in enumerate((p["a"], p["b"])):
             e1, r1 = _observe(bld, cfg, res, where[i])
-            c = dict(c, id=c["id"] + (" after " + p["a"]["mn"] if i else " (first of pair)"))
+            c = dict(c, id=c["id"] + (" after " + p["a"]["mn"] if i else " (first of pair)"), prev=p["a"]["mn"] if i else "")
             judge(rep, cfg, cpu, c, j["sources"]["a.asm"], where[i], res.rc, e1, r1, sig=res.sig, timeout=res.timeout,
                   out=res.out + res.err)
     for p in pairs:
@@ -334,8 +361,29 @@ def main(tier):
     covered = []
     todo = [(cfg, cpu, aslcpu, si, salt) for cfg in ISAS for (cpu, aslcpu) in cfg.cpus_for(tier)
             for si, salt in enumerate(salts)]
-    with Phase("TLC: %d generator runs" % len(todo)):
-        gens = pmap(lambda t: isa.gen_cases(t[0], t[1], k, t[4]), todo, workers=min(4, NCPU))
+    # adjacency dimension: every ordered pair of mnemonics on consecutive lines (one run per CPU variant)
+    seqtodo = [(cfg, cpu, aslcpu) for cfg in ISAS for (cpu, aslcpu) in list(cfg.cpus_for(tier)) + list(cfg.seq_only)]
+    # all TLC generator runs (single-worker JVMs) share one pool; longest first
+    tasks = [("gen", t) for t in todo] + [("seq", t) for t in seqtodo]
+    order = sorted(range(len(tasks)), key=lambda i: -WEIGHT.get(tasks[i][1][0].name, 1))
+
+    def tlc_task(i):
+        kind, t = tasks[i]
+        return isa.gen_cases(t[0], t[1], k, t[4]) if kind == "gen" else isa.gen_seq(t[0], t[1], salts[0])
+    vfut = None
+    if bld.hooks:
+        import concurrent.futures
+        from vlib import tracecheck
+
+        def corpus_validate():
+            execs, names = corpus_events(bld)
+            return execs, names, tracecheck.validate("Isa_Trace", execs, cfg="Isa_Trace.cfg", timeout=900)
+        vpool = concurrent.futures.ThreadPoolExecutor(max_workers=1)
+        vfut = vpool.submit(corpus_validate)
+    with Phase("TLC: %d case generator runs + %d adjacency generator runs" % (len(todo), len(seqtodo))):
+        done = dict(zip(order, pmap(tlc_task, order, workers=min(6, NCPU))))
+    gens = [done[i] for i in range(len(todo))]
+    seqs = [done[len(todo) + i] for i in range(len(seqtodo))]
     for (cfg, cpu, aslcpu, si, salt), (r, cases) in zip(todo, gens):
         name = "%s(%s,K=%d,Salt=%d)" % (cfg.module, cpu, k, salt)
         with Phase("replay " + name):
@@ -350,22 +398,18 @@ def main(tier):
                                 "expected": c["exp"], "units": c["units"]})
         if cfg.name not in covered:
             covered.append(cfg.name)
-    # adjacency dimension: every ordered pair of mnemonics on consecutive lines ----------------------------------
-    seqtodo = [(cfg, cpu, aslcpu) for cfg in ISAS for (cpu, aslcpu) in list(cfg.cpus_for(tier)) + list(cfg.seq_only)]
-    with Phase("TLC: %d adjacency generator runs" % len(seqtodo)):
-        seqs = pmap(lambda t: isa.gen_seq(t[0], t[1], salts[0]), seqtodo, workers=min(4, NCPU))
+    # adjacency dimension ---------------------------------------------------------------------------------------
     for (cfg, cpu, aslcpu), (r, pairs) in zip(seqtodo, seqs):
         name = "%s(%s) adjacency" % (cfg.module, cpu)
         with Phase("replay " + name):
             rep.model(name, r)
             ns = replay_seq(rep, bld, cfg, cpu, aslcpu, pairs)
             rep.part(name, ordered_mnemonic_pairs=len(pairs), rerun_as_pair=ns)
-    # (V) golden corpus statements explained by the tables ---------------------------------------------------
-    if bld.hooks:
-        from vlib import tracecheck
-        with Phase("corpus statements vs tables"):
-            execs, names = corpus_events(bld)
-            v = tracecheck.validate("Isa_Trace", execs, cfg="Isa_Trace.cfg", timeout=900)
+    # (V) golden corpus statements explained by the tables (started before the generator runs) ---------------------
+    if vfut is not None:
+        with Phase("corpus statements vs tables (waiting for the background run)"):
+            execs, names, v = vfut.result()
+            vpool.shutdown()
         rep.part("Isa_Trace(corpus)", tests=names, statements=sum(len(x) for x in execs), accepted=v.accepted,
                  distinct_states=v.states, wall_s=v.wall)
         rep.cov["states"] += v.states
